@@ -346,6 +346,11 @@ func (g *Gen) oblige(st *State, kind, clauseID, desc, goal string) {
 	if g.W.noAssume[strings.TrimPrefix(g.rootFn.Pkg.Pkg.Path(), g.W.modPath+"/")+"::"+fnName+" :: "+clauseID] {
 		return
 	}
+	if goal == "false" {
+		// "this must not happen here" (a call with unknown effects under a frame clause, a guarded call): assuming it
+		// would end the path and make everything behind it vacuously true - the rest of the path stays checked
+		return
+	}
 	g.assume(st, goal)
 }
 
